@@ -38,9 +38,9 @@ claim('C11',
       "representable range); mpz_cmp/mpz_cmpabs/mpn_cmp: sign decided by sizes, else by the highest differing limb (loop closed by invariant). "
       "mpf_cmp (sign of the exact difference at the highest differing limb after exponent alignment), mpf_cmp_ui, mpf_cmp_si, the six mpf_fits_*_p, mpf_get_ui/si, mpf_set_ui/si: the same full-domain statements on the mpf format. Doubles: __gmp_extract_double - for EVERY positive finite double, normal or subnormal, the two limbs and the limb "
       "exponent it returns denote d exactly ({rp[1],rp[0]} * 2^(64(e-2)) == m * 2^p with m, p read off the IEEE-754 fields; subnormal loop unwound completely); on top of it mpz_set_d (= trunc(d), sign, size, zero fill, "
-      "reallocation), mpz_cmp_d (sign of z - d for every z and every double incl. infinities: limb count, then the two significand limbs, then any non-zero lower limb of z / a fraction of d) and mpf_set_d (exact).",
+      "reallocation), mpz_cmp_d and mpz_cmpabs_d (sign of z - d resp. |z| - |d| for every z and every double incl. infinities: limb count, then the two significand limbs, then any non-zero lower limb of z / a fraction of d) and mpf_set_d (exact).",
       TB + "Four units are proved under two's-complement wrap-around of '-LONG_MIN' (signed-overflow check off, listed in evidence). "
-      "NOT covered: the conversions TO double (mpn_get_d: mpz_get_d, mpz_get_d_2exp, mpq_get_d, mpf_get_d), mpq_set_d, mpf_cmp_d, mpz_cmpabs_d; NaN traps; mpq_cmp*, mpz_sgn (a macro); mpq_equal is proved under C12.")
+      "NOT covered: the conversions TO double (mpn_get_d: mpz_get_d, mpz_get_d_2exp, mpq_get_d, mpf_get_d), mpq_set_d, mpf_cmp_d; NaN traps; mpq_cmp*, mpz_sgn (a macro); mpq_equal is proved under C12.")
 claim('C12',
       "Unbounded limb-exact proofs of mpq_inv (incl. dest==src pointer swap, sign moved to the numerator, DIVIDE_BY_ZERO exactly for 0), "
       "mpq_neg, mpq_abs, mpq_set, mpq_set_z, mpq_set_ui/si, mpq_set_num/den, mpq_get_num/den, mpq_swap: parts copied limb for limb, "
